@@ -35,6 +35,21 @@ Proof. exact duplex_other_context. Qed.
 Theorem C18_duplex_other : forall g start f b s, sf_topic f <> g_name g ++ suffix_send ->
   duplex_input g start ((f, b) :: s) = duplex_input g start s.
 Proof. exact duplex_not_send. Qed.
+(* restarts: each instance is fed exactly the sends appended while it runs (after its own .start,
+   before its .stop), and instances that do not overlap share no input *)
+Theorem C18_instance_fed : forall g a b f c s,
+  a < sf_id f -> sf_id f < b -> sf_ctx f = g_ctx g -> sf_topic f = g_name g ++ suffix_send ->
+  instance_input g a b ((f, c) :: s) = c :: instance_input g a b s.
+Proof. exact instance_fed_while_running. Qed.
+Theorem C18_instance_not_refed : forall g a b f c s,
+  sf_id f <= a -> instance_input g a b ((f, c) :: s) = instance_input g a b s.
+Proof. exact instance_not_fed_earlier. Qed.
+Theorem C18_instances_disjoint : forall g a1 b1 a2 b2 f c,
+  b1 <= a2 -> instance_input g a1 b1 [(f, c)] <> [] -> instance_input g a2 b2 [(f, c)] = [].
+Proof. exact instances_disjoint. Qed.
+Print Assumptions C18_instance_fed.
+Print Assumptions C18_instance_not_refed.
+Print Assumptions C18_instances_disjoint.
 Print Assumptions C18_duplex_in_order.
 Print Assumptions C18_duplex_send.
 Check ex_lifecycles.
